@@ -38,30 +38,17 @@ def syncFns : List String :=
    "SyncState.update", "SyncState.update_entry", "SyncState.updated"]
 
 /-- UNLOCKED: `SmartSyncState._smart_sync_ent` (smartsync.py:105-114) clears the local side and calls `update_entry`
-    without the lock; reached from `smart_sync_path/_oid` before `SmartCloudSync._smart_sync_ent` takes the lock, and from
-    the `_changeset` getter (auto-sync callbacks) through the public `busy` / `changes` -/
+    without the lock when the state object's `smart_sync_path/_oid` are called directly, and from the `_changeset` getter
+    (auto-sync callbacks) through the public `busy` / `changes`.  (`SmartCloudSync.smart_sync_path/_oid` reached it unlocked
+    too before fix F7; they now take `state.lock` around the whole request.) -/
 def smartRequestFns : List String :=
   ["SideState._set_exists", "SideState._set_mtime", "SideState.clear", "SideState.uncorrupt",
    "SmartSyncState._smart_sync_ent", "SyncState._change_oid", "SyncState._change_path", "SyncState._update_kids",
    "SyncState.mark_changed", "SyncState.update_entry", "SyncState.updated"]
 
-/-- the part of an on-demand sync that is inside `with self.state.lock` (smartsync.py:367-371) on every path -/
-def smartSyncLockedFns : List String :=
-  ["SideState.clean_temp", "SideState.set_aged", "SideState.set_force_sync", "SyncEntry.get_latest",
-   "SyncEntry.ignore", "SyncEntry.mark_dirty", "SyncEntry.punt", "SyncEntry.unignore",
-   "SyncManager.__resolver_merge_upload", "SyncManager._create_synced", "SyncManager.check_rename_is_delete_create",
-   "SyncManager.check_revivify", "SyncManager.create_synced", "SyncManager.delete_synced",
-   "SyncManager.download_changed", "SyncManager.embrace_change", "SyncManager.finished",
-   "SyncManager.get_folder_file_conflict", "SyncManager.handle_changed_is_missing",
-   "SyncManager.handle_cloud_file_not_found_error", "SyncManager.handle_corrupt", "SyncManager.handle_hash_diff",
-   "SyncManager.handle_path_change_or_creation", "SyncManager.handle_rename", "SyncManager.handle_split_conflict",
-   "SyncManager.resolve_conflict", "SyncManager.sync", "SyncManager.unsafe_mkdir_synced",
-   "SyncManager.upload_synced", "SyncState._storage_update", "SyncState.finished", "SyncState.split",
-   "SyncState.storage_commit", "SyncState.unconditionally_get_latest", "SyncState.unconditionally_get_no_info",
-   "SyncState.update"]
-
-/-- UNLOCKED: `SmartCloudSync._smart_unsync_ent` (smartsync.py:327-334) refreshes and synchronises one entry —
-    the whole of `_sync_one_entry` — with no lock at all, then `SmartSyncState._smart_unsync_ent` clears the local side -/
+/-- everything `smart_unsync_oid/_path` reaches: `SmartCloudSync._smart_unsync_ent` refreshes and synchronises one entry —
+    the whole of `_sync_one_entry` — then `SmartSyncState._smart_unsync_ent` clears the local side.  Since fix F7 the public
+    methods take `state.lock` around all of it (before F7: reached with no lock at all) -/
 def smartUnsyncFns : List String :=
   ["SideState._set_exists", "SideState._set_mtime", "SideState.clean_temp", "SideState.clear", "SideState.set_aged",
    "SideState.set_force_sync", "SideState.uncorrupt", "SmartCloudSync._smart_unsync_ent",
@@ -78,7 +65,7 @@ def smartUnsyncFns : List String :=
    "SyncState.mark_changed", "SyncState.split", "SyncState.storage_commit", "SyncState.unconditionally_get_latest",
    "SyncState.unconditionally_get_no_info", "SyncState.update", "SyncState.update_entry", "SyncState.updated"]
 
-/-- UNLOCKED: `smart_delete_path` (smartsync.py:448-459) -/
+/-- `smart_delete_path`: its `if remote_path:` block; under `state.lock` since fix F7 (before: unlocked) -/
 def smartDeleteFns : List String :=
   ["SideState._set_exists", "SideState._set_mtime", "SideState.uncorrupt", "SmartCloudSync.smart_delete_path",
    "SyncState._change_oid", "SyncState._change_path", "SyncState._update_kids", "SyncState.mark_changed",
@@ -96,7 +83,7 @@ def audited : List (String × List String × List String) := [
   ("SyncManager.do", syncFns, []),
   ("SmartSyncManager.do", syncFns, []),
   ("NotificationManager.do", [], []),
-  ("CloudSync.forget", [], ["SyncState.forget"]),
+  ("CloudSync.forget", ["SyncState.forget"], []),
   ("CloudSync.set_need_walk", [], []),
   ("CloudSync.aging", [], []),
   ("CloudSync.storage_label", [], []),
@@ -114,14 +101,14 @@ def audited : List (String × List String × List String) := [
   ("CloudSync.wait", [], []),
   ("CloudSync.handle_notification", [], []),
   ("SmartCloudSync.register_auto_sync_callback", [], []),
-  ("SmartCloudSync.smart_unsync_oid", [], smartUnsyncFns),
-  ("SmartCloudSync.smart_unsync_path", [], smartUnsyncFns),
-  ("SmartCloudSync.smart_sync_oid", smartSyncLockedFns, smartRequestFns),
-  ("SmartCloudSync.smart_sync_path", smartSyncLockedFns, smartRequestFns),
+  ("SmartCloudSync.smart_unsync_oid", smartUnsyncFns, []),
+  ("SmartCloudSync.smart_unsync_path", smartUnsyncFns, []),
+  ("SmartCloudSync.smart_sync_oid", syncFns, []),
+  ("SmartCloudSync.smart_sync_path", syncFns, []),
   ("SmartCloudSync.smart_listdir_path", [], []),
   ("SmartCloudSync.smart_info_path", [], []),
   ("SmartCloudSync.smart_info_oid", [], []),
-  ("SmartCloudSync.smart_delete_path", [], smartDeleteFns),
+  ("SmartCloudSync.smart_delete_path", smartDeleteFns, []),
   ("SmartCloudSync.smart_rename", [], []),
   ("SmartSyncState.smart_sync_path", [], smartRequestFns),
   ("SmartSyncState.smart_sync_oid", [], smartRequestFns),
@@ -151,9 +138,18 @@ theorem engine_threads_locked :
     harness/c15_threads.py; a NEW unlocked entry point breaks this theorem) -/
 theorem unlocked_entry_points :
     (lockTable.filter (fun r => !r.2.2.isEmpty)).map (·.1) =
-      ["CloudSync.forget", "CloudSync.busy", "SmartCloudSync.smart_unsync_oid", "SmartCloudSync.smart_unsync_path",
-       "SmartCloudSync.smart_sync_oid", "SmartCloudSync.smart_sync_path", "SmartCloudSync.smart_delete_path",
-       "SmartSyncState.smart_sync_path", "SmartSyncState.smart_sync_oid", "SmartSyncState.smart_unsync_ent",
-       "SmartSyncState.smart_unsync_oid", "SmartSyncState.changes"] := rfl
+      ["CloudSync.busy", "SmartSyncState.smart_sync_path", "SmartSyncState.smart_sync_oid",
+       "SmartSyncState.smart_unsync_ent", "SmartSyncState.smart_unsync_oid", "SmartSyncState.changes"] := rfl
+
+/-- fix F7: the six public methods repaired by taking `state.lock` reach no mutating function without it any more
+    (a revert of any one of the six edits breaks this theorem and `lock_sites_audited`) -/
+theorem f7_entry_points_locked :
+    (lockTable.filter (fun r => ["CloudSync.forget", "SmartCloudSync.smart_unsync_oid", "SmartCloudSync.smart_unsync_path",
+                                 "SmartCloudSync.smart_sync_oid", "SmartCloudSync.smart_sync_path",
+                                 "SmartCloudSync.smart_delete_path"].contains r.1)).map (fun r => (r.1, r.2.2)) =
+      [("CloudSync.forget", []), ("SmartCloudSync.smart_unsync_oid", []), ("SmartCloudSync.smart_unsync_path", []),
+       ("SmartCloudSync.smart_sync_oid", []), ("SmartCloudSync.smart_sync_path", []),
+       ("SmartCloudSync.smart_delete_path", [])] := by
+  decide +kernel
 
 end CS.Lock
